@@ -112,6 +112,8 @@ class Engine:
     assumptions = [
         "the input x configuration factor of C01 is sampled by the workload generator only; the fault factor is "
         "what this check decides (DESIGN §4.1)",
+        "an exception raised inside a docutils/Sphinx writer (a frame under .../writers/) while it translates a "
+        "finished doctree is outside C01 (parse + transforms + post-transforms) and is counted, not reported",
         "docutils runs with halt_level=5 (its default halt_level=4 aborts by configuration on a SEVERE message such "
         "as a missing include), report_level=2, traceback=True",
         "calls issued by docutils or Sphinx (also on MyST's behalf: env.relfn2path -> Path.resolve, image "
@@ -403,6 +405,8 @@ class Engine:
         if st == "exc":
             raise RuntimeError(f"pass child failed in harness code: {val[0]}: {val[1]}\n{val[2]}")
         res = val
+        if res.get("writer_exc"):
+            count("writer_exceptions_out_of_scope:" + res["writer_exc"])
         if rec is not None:
             ok_calls = {(t["site"], t["op"], t["rel"], t["nth"]) for t in rec["trace"] if t.get("outcome") == "ok"}
             for d in res["delivered"]:
@@ -618,6 +622,7 @@ def _pass(plan, root, faults, observe_only):
     seam.install()
     net.install()
     status, exc, tb = "ok", None, ""
+    writer_exc = None
     msgs: list[str] = []
     doc_ok, doc_detail = True, None
     try:
@@ -649,7 +654,12 @@ def _pass(plan, root, faults, observe_only):
                 if cfg.get("suppress_warnings"):
                     conf["suppress_warnings"] = list(cfg["suppress_warnings"])  # Sphinx's own setting
                 r = sut.sphinx_build(root, "pass", root, conf, builder=plan["builder"], observe="resolved")
-                if r[0] == "exc":
+                if r[0] == "exc" and r[1].get("in_writer"):
+                    # C01 is about "parse plus the standard transform pipeline ... then env.apply_post_transforms":
+                    # reading and resolving were finished when the builder's writer failed on the doctree, which is
+                    # the writer's (upstream) business - e.g. Sphinx's texinfo writer asserts on some section shapes
+                    writer_exc = f"{r[1]['type']}@{r[1]['raise_frame']}"
+                elif r[0] == "exc":
                     status, exc = "exc", r[1]
                     exc["caught_by"] = "sphinx_build"
                 else:
@@ -678,4 +688,5 @@ def _pass(plan, root, faults, observe_only):
     return {"status": status, "exc": exc, "tb": tb, "msgs": sorted(set(msgs)), "doc_ok": doc_ok,
             "doc_detail": doc_detail, "trace": [{k: v for k, v in t.items() if not k.startswith("_")}
                                                 for t in seam.trace],
-            "delivered": seam.delivered, "upstream_calls": seam.upstream_calls, "mechanisms": mech}
+            "delivered": seam.delivered, "upstream_calls": seam.upstream_calls, "mechanisms": mech,
+            "writer_exc": writer_exc}
